@@ -531,6 +531,8 @@ def run(ctx):
         for flux in space.fluxes(model):
             for rname in (space.X1_ALL if th else space.X1_SHORT):
                 cfg.append((mname, flux, rname, ctx.tier))
+    if not th:
+        cfg += [(mname, flux, rname, ctx.tier) for rname in space.X1_REST for mname, flux in (("convection+", None), ("euler1d", "hllc")) if mname in MODELS]
     ctx.pmap("operator-1d", shard_op1d, cfg)
     # the same operator space with long-lived objects: one model and one reconstruction object serve all meshes, boundaries and data of a shard
     first = {}
